@@ -869,6 +869,11 @@ impl<T: Transport, Env: UtpEnvironment> VirtualSocket<T, Env> {
 
                 if self.socket_opts.nagle && !can_send_full_payload && data_in_flight {
                     trace!(max_payload_size, "nagle: buffering more data");
+                    // This was an MTU probe's turn but nothing got probed: keep the turn,
+                    // otherwise a steady write pattern can starve probing forever.
+                    if ss > min_ss {
+                        self.segment_sizes.disarm_cooldown();
+                    }
                     break;
                 }
             }
